@@ -215,6 +215,10 @@ func (e *SpecEnv) eval(x ast.Expr) Val {
 		return Val{T: base.T, L: []string{base.L[0], app("bvadd", base.L[1], lo), app("bvsub", hi, lo), app("bvsub", base.L[3], lo)}}
 	case *ast.CallExpr:
 		return e.evalCall(x)
+	case *ast.TypeAssertExpr:
+		iv := e.eval(x.X)
+		t := e.typeOf(x)
+		return vc.unbox(e.st, iv, t)
 	case *ast.CompositeLit:
 		t := e.typeOf(x)
 		if st, ok := t.Underlying().(*types.Struct); ok {
@@ -417,6 +421,60 @@ func (e *SpecEnv) evalCall(x *ast.CallExpr) Val {
 			return Val{T: types.Typ[types.Bool], L: []string{and(app("bvuge", v.L[1], oa), app("bvult", v.L[1], e.st.alloc))}}
 		}
 		e.fail(x, "fresh() of unsupported type")
+	case "govcSame":
+		a := e.eval(x.Args[0])
+		b := e.eval(x.Args[1])
+		var cs []string
+		lay := layoutOf(a.T)
+		for k := range a.L {
+			if lay.Leaves[k].Sort == sF32 || lay.Leaves[k].Sort == sF64 {
+				// same bits or both NaN
+				cs = append(cs, or(eq(a.L[k], b.L[k])))
+			} else {
+				cs = append(cs, eq(a.L[k], b.L[k]))
+			}
+		}
+		return Val{T: types.Typ[types.Bool], L: []string{and(cs...)}}
+	case "govcSameBase":
+		a := e.eval(x.Args[0])
+		b := e.eval(x.Args[1])
+		return Val{T: types.Typ[types.Bool], L: []string{eq(a.L[0], b.L[0])}}
+	case "govcOffset":
+		a := e.eval(x.Args[0])
+		return Val{T: types.Typ[types.Int], L: []string{a.L[1]}}
+	case "govcIsEOF":
+		v := e.eval(x.Args[0])
+		return Val{T: types.Typ[types.Bool], L: []string{vc.errIs(v, vc.externErrVar("io.EOF"))}}
+	case "govcIsUEOF":
+		v := e.eval(x.Args[0])
+		return Val{T: types.Typ[types.Bool], L: []string{vc.errIs(v, vc.externErrVar("io.ErrUnexpectedEOF"))}}
+	case "govcErrIs":
+		v := e.eval(x.Args[0])
+		id, ok := x.Args[1].(*ast.Ident)
+		if !ok {
+			e.fail(x, "iserr: second argument must name a package-level error variable")
+		}
+		gv, ok := info.Uses[id].(*types.Var)
+		if !ok {
+			e.fail(x, "iserr: not a variable")
+		}
+		g := vc.w.SSAPkgs[gv.Pkg().Path()].Var(gv.Name())
+		if g == nil || !vc.w.immutableGlobal(g) {
+			e.fail(x, "iserr: %s is not an immutable package-level variable", id.Name)
+		}
+		et := types.Universe.Lookup("error").Type()
+		tgt := Val{T: et, L: []string{bvLit(64, uint64(vc.w.tags.tag(gv.Type()))), bvLit(64, uint64(vc.w.globalBoxId(g)))}}
+		return Val{T: types.Typ[types.Bool], L: []string{vc.errIs(v, tgt)}}
+	case "govcIsNaN":
+		v := e.eval(x.Args[0])
+		return Val{T: types.Typ[types.Bool], L: []string{app("fp.isNaN", v.L[0])}}
+	case "govcIfaceOf":
+		v := e.eval(x.Args[0])
+		return vc.rvInterface(v)
+	case "govcMsgOf":
+		v := e.eval(x.Args[0])
+		t := info.Types[typeArgs[0]].Type
+		return vc.unbox(e.st, vc.rvInterface(v), t)
 	case "govcTypeIs":
 		v := e.eval(x.Args[0])
 		tt := info.Types[typeArgs[0]].Type
@@ -769,6 +827,12 @@ func (vc *VC) valEq(a, b Val) string {
 		return eq(a.L[0], b.L[0])
 	}
 	if _, ok := t.Underlying().(*types.Interface); ok {
+		if b.L[0] == bvLit(64, 0) {
+			return eq(a.L[0], bvLit(64, 0))
+		}
+		if a.L[0] == bvLit(64, 0) {
+			return eq(b.L[0], bvLit(64, 0))
+		}
 		return vc.ifaceEq(a, b)
 	}
 	if len(a.L) != len(b.L) {
